@@ -626,8 +626,15 @@ fn exec_inner(s: &mut CrdtSession, toks: &[&str], enc: TextEncoding) -> Vec<Stri
         "crdt.splice" => {
             let d = s.replicas.get_mut(toks[1]).unwrap();
             let text = String::from_utf8(unhx(toks[5])).unwrap();
-            let r = d.splice_text(parse_exid(toks[2]), toks[3].parse::<usize>().unwrap(), toks[4].parse::<isize>().unwrap(), &text);
-            vec![res_str(&r)]
+            let (pos, del) = (toks[3].parse::<usize>().unwrap(), toks[4].parse::<isize>().unwrap());
+            let is_text = matches!(d.object_type(parse_exid(toks[2])), Ok(ObjType::Text));
+            let r = d.splice_text(parse_exid(toks[2]), pos, del, &text);
+            let mut res = vec![res_str(&r)];
+            // C03 direct oracle: a backwards delete that reaches before the start of the text is an invalid call
+            if is_text && del < 0 && del.unsigned_abs() > pos && r.is_ok() {
+                res.push(format!("! C03 sig=negative-del-before-start splice_text({}, {}) deletes before the start of the text but returned Ok", pos, del));
+            }
+            res
         }
         "crdt.rollback" => {
             let d = s.replicas.get_mut(toks[1]).unwrap();
@@ -790,6 +797,32 @@ pub fn generate_focus(r: &mut Rng, sess: &mut Session, out: &mut Out) {
     let names_v: Vec<String> = names.to_vec();
     for n in names.iter() { exec_line(sess, &format!("crdt.apply {} {}", n, all.join(",")), out); }
     observe(sess, out, &names_v);
+    // scripted tail: two replicas put a COUNTER on the contested registers concurrently, a third one merges
+    // both and increments (one increment op with several counter predecessors); that history then reaches one
+    // replica through save + load and another through apply_changes
+    if r.chance(1, 2) {
+        out.count("focus_conflicting_counters_incremented");
+        let on_list = r.chance(1, 2) && sess.crdt.replicas.get("r1").unwrap().length(parse_exid(&list)) > 0;
+        let (obj, prop) = if on_list { (list.clone(), "i0".to_string()) } else { ("_".to_string(), "m61".to_string()) };
+        let n0 = all.len();
+        exec_line(sess, &format!("crdt.put r1 {} {} c{}", obj, prop, r.range(1, 9)), out);
+        commit(sess, out, "r1", &mut all);
+        exec_line(sess, &format!("crdt.put r2 {} {} c{}", obj, prop, r.range(10, 90)), out);
+        commit(sess, out, "r2", &mut all);
+        if r.chance(1, 3) { exec_line(sess, &format!("crdt.inc r2 {} {} 1", obj, prop), out); commit(sess, out, "r2", &mut all); }
+        let batch: Vec<String> = all[n0..].to_vec();
+        if !batch.is_empty() {
+            exec_line(sess, &format!("crdt.apply r0 {}", batch.join(",")), out);
+            exec_line(sess, &format!("crdt.inc r0 {} {} {}", obj, prop, r.range(2, 5)), out);
+            commit(sess, out, "r0", &mut all);
+            exec_line(sess, "crdt.state r0", out);
+            exec_line(sess, &format!("crdt.saveload r0 l {}", r.below(2)), out);
+            exec_line(sess, "crdt.state l", out);
+            exec_line(sess, &format!("crdt.apply r1 {}", all.join(",")), out);
+            exec_line(sess, "crdt.state r1", out);
+            return;
+        }
+    }
     exec_line(sess, "crdt.saveload r1 l 0", out);
     exec_line(sess, "crdt.state l", out);
 }
@@ -991,9 +1024,11 @@ pub fn local_tx(r: &mut Rng, sess: &mut Session, out: &mut Out, who: &str, known
             }
             ObjType::Text => {
                 let pos = if r.chance(1, 15) { len + 1 } else { r.below(len + 1) };
-                let del = if len > pos && r.chance(1, 3) { r.range(1, (len - pos).min(3)) } else { 0 };
+                let del: i64 = if len > pos && r.chance(1, 3) { r.range(1, (len - pos).min(3)) as i64 }
+                    // a negative count deletes backwards from `pos`; one that reaches before the start is an invalid call
+                    else if r.chance(1, 10) { out.count("splice_negative_del"); -(r.range(1, pos.min(len) + 2) as i64) } else { 0 };
                 let txt = ["a", "bc", "é", "🙂", "xyz", "", "e\u{301}"][r.below(7) as usize];
-                if cfg!(feature = "e_richtext") && sess.crdt.marked_texts.contains(&obj) { format!("crdt.rt.splice {} {} {} {} {} -", who, obj, pos, del, hx(txt.as_bytes())) }
+                if cfg!(feature = "e_richtext") && sess.crdt.marked_texts.contains(&obj) { format!("crdt.rt.splice {} {} {} {} {} -", who, obj, pos, del.max(0), hx(txt.as_bytes())) }
                 else { format!("crdt.splice {} {} {} {} {}", who, obj, pos, del, hx(txt.as_bytes())) }
             }
         };
